@@ -4,7 +4,7 @@
 From Coq Require Import String.
 From PS Require Import Base GFDefs PackDefs StoreDefs MiscDefs StrDefs LangDefs ApiDefs SpecDefs SpecApi.
 From PS Require Import GFProofs MiscProofs CoinProofs PackProofs PackTheorems StoreProofs SeedProofs ApiLemmas.
-From PS Require Import StrProofs CTieBase CTieTac CTieGF CTieBday CTieFeat CTiePack CTieStore CTieLang CTieStr CTiePhrase CTieSplit CTieApi.
+From PS Require Import StrProofs CTieBase CTieTac CTieGF CTieBday CTieFeat CTiePack CTieStore CTieLang CTieStr CTiePhrase CTiePhraseEv CTieSplit CTieApi.
 From PS.Gen Require Import Consts PrivConsts Langs.
 From PS.Gen Require CFuns CApi.
 Local Open Scope N_scope.
@@ -88,7 +88,7 @@ Section Decode.
     exists cevs lo' b f s c so status,
       CApi.polyseed_decode fuel sgn D ext (alloc_ptr st ok) CFuns.polyseed_mul2_table (zN (st_reserved st))
         (zs str) (zN coin) lo lo0 gb gf gs gc so0 = Some (cevs, lo', b, f, s, c, so, status) /\
-      evs_of dp cevs = no_idx evs /\
+      evs_of dp cevs = evs /\
       (exists li, out = OutStatus (Z.to_N status) (if (status =? 0)%Z then Some (st_next st) else None)
                                  (if (status =? 0)%Z then Some li else None) /\
                   (status = 0%Z -> (lo <> 0%Z -> lo' = Z.of_nat li) /\ (lo = 0%Z -> lo' = lo0))) /\
@@ -117,21 +117,21 @@ Section Decode.
     rewrite E16.
     assert (EV0 : forall X, evs_of dp (CApi.CNfkdLazy (zs str) :: X) = (if called then [EvNfkd str] else []) ++ evs_of dp X).
     { intros X. unfold evs_of. cbn [flat_map ev_of]. fold nf. rewrite bytes_of_zs, EN. reflexivity. }
-    assert (NI0 : forall X, no_idx ((if called then [EvNfkd str] else []) ++ X) = (if called then [EvNfkd str] else []) ++ no_idx X).
-    { intros X. destruct called; reflexivity. }
+    assert (NI0 : forall X : list event, X = X) by reflexivity.
     destruct (Nat.eqb w 16) eqn:Ew; cbn [negb].
-    2:{ do 8 eexists. split; [reflexivity|]. split; [cbn [app]; rewrite EV0, NI0; reflexivity|].
+    2:{ do 8 eexists. split; [reflexivity|]. split; [cbn [app]; rewrite EV0; reflexivity|].
         split; [exists 0%nat; split; [reflexivity|discriminate]|]. split; reflexivity. }
     apply Nat.eqb_eq in Ew. subst w.
     assert (Ltok : length toks = 16%nat) by (rewrite SW; apply S16; reflexivity).
     assert (Ntok : Forall no_nul toks) by (rewrite SW by (apply S16; reflexivity); apply tokens_nonul, Hnorm).
     rewrite (map_cstr_at Bf' words' toks LW Ltok HQ).
+    rewrite tie_phrase_decode_ev.
     pose proof (tie_phrase_decode_langs sgn ext toks (repeat 0%Z 16) lo lo0 fuel Hext Ltok eq_refl Hfuel18) as R.
     change [0; 0; 0; 0; 0; 0; 0; 0; 0; 0; 0; 0; 0; 0; 0; 0]%Z with (repeat 0%Z 16).
     rewrite (phrase_decode_spec sgn toks Ntok) in *.
     destruct (matching langs 0 toks) as [|[l idx] [|? ?]] eqn:EM; cbn [pd_of] in *.
     - cbn [Res] in R. rewrite R. cbv beta iota. change (2 mod 4294967296 =? 0)%Z with false. cbn [negb].
-      do 8 eexists. split; [reflexivity|]. split; [cbn [app]; rewrite EV0, NI0; reflexivity|].
+      do 8 eexists. split; [reflexivity|]. split; [cbn [app]; rewrite EV0; reflexivity|].
       split; [exists 0%nat; split; [reflexivity|discriminate]|]. split; reflexivity.
     - cbn [Res] in R. destruct R as (l0&R&Rl1&Rl2). rewrite R. cbv beta iota.
       change (0 mod 4294967296 =? 0)%Z with true. cbn [negb].
@@ -139,20 +139,20 @@ Section Decode.
       destruct (matching_wf langs 0%nat toks l idx (fun L H => H) IM) as [Widx Lidx]. rewrite Ltok in Lidx.
       finish_tail st idx coin ok gs EV0 NI0 Hcoin Lidx Widx.
       + do 8 eexists. split; [reflexivity|]. split.
-        { cbn [app]. rewrite EV0, NI0. unfold evs_of. cbn [flat_map ev_of app cobj]. rewrite ?ptr_nz, ?hnd_ptr. reflexivity. }
+        { cbn [app]. rewrite EV0. unfold evs_of. cbn [flat_map ev_of app cobj]. rewrite ?ptr_nz, ?hnd_ptr. reflexivity. }
         split; [exists l; split; [reflexivity | intros _; split; assumption]|].
         cbn [Z.eqb]. split; [reflexivity|]. eexists. split; reflexivity.
       + do 8 eexists. split; [reflexivity|]. split.
-        { cbn [app]. rewrite EV0, NI0. unfold evs_of. cbn [flat_map ev_of app cobj]. rewrite ?ptr_nz, ?hnd_ptr. reflexivity. }
+        { cbn [app]. rewrite EV0. unfold evs_of. cbn [flat_map ev_of app cobj]. rewrite ?ptr_nz, ?hnd_ptr. reflexivity. }
         split; [exists l; split; [reflexivity | discriminate]|]. split; reflexivity.
       + do 8 eexists. split; [reflexivity|]. split.
-        { cbn [app]. rewrite EV0, NI0. unfold evs_of. cbn [flat_map ev_of app cobj]. reflexivity. }
+        { cbn [app]. rewrite EV0. unfold evs_of. cbn [flat_map ev_of app cobj]. reflexivity. }
         split; [exists l; split; [reflexivity | discriminate]|]. split; reflexivity.
       + do 8 eexists. split; [reflexivity|]. split.
-        { cbn [app]. rewrite EV0, NI0. unfold evs_of. cbn [flat_map ev_of app cobj]. reflexivity. }
+        { cbn [app]. rewrite EV0. unfold evs_of. cbn [flat_map ev_of app cobj]. reflexivity. }
         split; [exists l; split; [reflexivity | discriminate]|]. split; reflexivity.
     - cbn [Res] in R. destruct R as (io&lz&R). rewrite R. cbv beta iota. change (7 mod 4294967296 =? 0)%Z with false. cbn [negb].
-      do 8 eexists. split; [reflexivity|]. split; [cbn [app]; rewrite EV0, NI0; reflexivity|].
+      do 8 eexists. split; [reflexivity|]. split; [cbn [app]; rewrite EV0; reflexivity|].
       split; [exists 0%nat; split; [reflexivity|discriminate]|]. split; reflexivity.
   Qed.
 
